@@ -173,7 +173,7 @@ fn exec_requests<T: Config<Input = u8, State = Game>>(
                 *k += 1;
                 let kth = *k;
                 game.step(&inputs);
-                if glitches.iter().any(|(gf, gk)| *gf == f && *gk == kth) {
+                if glitches.iter().any(|(gf, gk)| *gf == f && (*gk == kth || *gk == 0)) {
                     game.acc ^= 0x5555;
                     write!(gt, " g:{f}:{kth}").unwrap();
                 }
@@ -588,6 +588,45 @@ impl World {
                 }
                 drop(n);
                 writeln!(self.trace, "N flushall").unwrap();
+            }
+            "mark" => {
+                writeln!(self.trace, "N {line}").unwrap();
+            }
+            "forge" => {
+                // forge <src> <dst> <k> <mutation> [arg]: a copy of the k-th in-flight message of
+                // link src->dst is mutated and put into dst's inbox (the original stays in flight)
+                let (src, dst, k): (usize, usize, usize) = (w[1].parse().unwrap(), w[2].parse().unwrap(), w[3].parse().unwrap());
+                let n = self.net.borrow();
+                let Some(q) = n.links.get(&(src, dst)) else { return };
+                if q.is_empty() { return; }
+                let k = k % q.len();
+                let mut m = q[k].clone();
+                drop(n);
+                let mut from = src;
+                let mutation = w[4];
+                let ok = match (&mut m.body, mutation) {
+                    (_, "magic") => { m.header.magic = m.header.magic.wrapping_add(1).max(1); true }
+                    (_, "addr") => { from = 99; true }
+                    (crate::msg::Body::Input(i), "status-") => { i.peer_connect_status.pop(); !i.disconnect_requested }
+                    (crate::msg::Body::Input(i), "status+") => {
+                        i.peer_connect_status.push(crate::msg::ConnStatus { disconnected: false, last_frame: 0 });
+                        !i.disconnect_requested
+                    }
+                    (crate::msg::Body::Input(i), "startneg") => { i.start_frame = -1 - (k as i32); true }
+                    (crate::msg::Body::Input(i), "payload") => { i.bytes = crate::from_hex(w.get(5).copied().unwrap_or("-")).unwrap_or_default(); true }
+                    (crate::msg::Body::Input(i), "size") => {
+                        let per: usize = w.get(5).and_then(|x| x.parse().ok()).unwrap_or(0);
+                        let frames: usize = w.get(6).and_then(|x| x.parse().ok()).unwrap_or(1);
+                        let inputs: Vec<Vec<u8>> = (0..frames).map(|f| vec![(f as u8).wrapping_add(0x41); per]).collect();
+                        i.bytes = ggrs::verif_hooks::codec_encode(&[], &inputs);
+                        true
+                    }
+                    _ => false,
+                };
+                if ok {
+                    self.net.borrow_mut().inbox.entry(dst).or_default().push((from, m));
+                    writeln!(self.trace, "N forge {src} {dst} {k} {}", w[4..].join(" ")).unwrap();
+                }
             }
             "inject" => {
                 let (dst, from): (usize, usize) = (w[1].parse().unwrap(), w[2].parse().unwrap());
